@@ -141,6 +141,16 @@ def impl_case(case):
         except Exception as e:  # noqa: BLE001
             sl.append([s, z, f"EXC {type(e).__name__}"])
     obs["slice"] = sl
+    # far beyond the end (a CODECOPY offset is any 256-bit word): still `size` zero bytes
+    far = []
+    for s in FAR_STARTS:
+        for z in (0, 1, 32):
+            try:
+                bv = c.slice(s, z)
+                far.append([s, z, [enc(bv.get_byte(i)) for i in range(z)] if len(bv) == z else f"badlen {len(bv)}"])
+            except Exception as e:  # noqa: BLE001
+                far.append([s, z, f"EXC {type(e).__name__}"])
+    obs["slice_far"] = far
     return obs
 
 
@@ -181,6 +191,7 @@ def spec_obs(case):
     obs["getitem"] = [e(spec_byte(flat, k)) for k in probes(n)[1]]
     grid = sorted({(s, z) for s in {0, 1, max(0, n - 2), n, n + 1} for z in {0, 1, 2, 3, n, n + 2}})
     obs["slice"] = [[s, z, [e(spec_byte(flat, s + i)) for i in range(z)]] for s, z in grid]
+    obs["slice_far"] = [[s, z, [e(spec_byte(flat, s + i)) for i in range(z)]] for s in FAR_STARTS for z in (0, 1, 32)]
     return obs
 
 
@@ -260,9 +271,12 @@ def classify(case):
     return kinds
 
 
+FAR_STARTS = [(1 << 20) - 1, 1 << 20, (1 << 20) + 1, 1 << 64, (1 << 256) - 1]
+
+
 def compare(rep, case, a, b, what):
     """a = implementation observations, b = reference (model or spec)."""
-    for key in ("jumpdests", "decode", "getitem", "slice"):
+    for key in ("jumpdests", "decode", "getitem", "slice") + (("slice_far",) if "slice_far" in b else ()):
         if a[key] != b[key]:
             detail = {"observable": key, "implementation": a[key], what: b[key]}
             if key != "jumpdests":
